@@ -87,7 +87,7 @@ def run(ctx: Ctx) -> None:
                 if x.kind == "test":
                     continue
                 if x.kind == "stmt" and isinstance(st, ast.Assign) and not any(isinstance(c, ast.Call) and not (isinstance(c.func, ast.Name) and c.func.id in ("len", "isinstance", "getattr")) for c in ast.walk(st.value)) \
-                        and not (isinstance(st.value, ast.List) and not st.value.elts) and all(isinstance(t, ast.Name) for t in st.targets):
+                        and not (isinstance(st.value, ast.List) and not st.value.elts) and all(isinstance(t, ast.Name) or (isinstance(t, (ast.Tuple, ast.List)) and all(isinstance(e_, ast.Name) for e_ in t.elts)) for t in st.targets):
                     continue  # a local computed for the test (p0_type = params[0].type, single_segment = ...)
                 effects.append((x, ch))
             body_ok = bool(effects)
@@ -153,6 +153,8 @@ def run(ctx: Ctx) -> None:
             # self.verbose = self.options.verbose ; if self.verbose: <choose debug_print>
             if isinstance(par, ast.Assign) and all(is_self_attr(t, "verbose") for t in par.targets):
                 ok = True
+            elif isinstance(par, ast.IfExp) and par.test is x and isinstance(mod.parent.get(par), ast.Assign) and all(is_self_attr(t, "debug_print") for t in mod.parent.get(par).targets):
+                ok = True
             elif isinstance(par, ast.If) and par.test is x:
                 sts = [s for b in (par.body, par.orelse) for s in b]
                 ok = all(isinstance(s, (ast.FunctionDef, ast.Assign)) for s in sts) and all(
@@ -165,24 +167,59 @@ def run(ctx: Ctx) -> None:
                msg="the verbose flag is consulted outside the debug_print choice and the top-of-handler re-raise: verbose mode would change what is parsed or which errors surface", node=x, mod=mod, nontrivial=False)
     # debug_print bodies: only formatting and print
     init = pm.fn("__init__")
+
+    def callable_of(v: ast.AST):
+        """('lambda'|'def', node) for what a debug_print binding denotes: a lambda, a nested def, a method of the class
+        or a class-level staticmethod(lambda)"""
+        if isinstance(v, ast.Lambda):
+            return ("lambda", v)
+        if isinstance(v, ast.Name):
+            for f_ in ast.walk(init):
+                if isinstance(f_, ast.FunctionDef) and f_.name == v.id and f_ is not init:
+                    return ("def", f_)
+        if isinstance(v, ast.Attribute) and isinstance(v.value, ast.Name) and v.value.id in ("self", "CxxParser"):
+            if v.attr in pm.methods:
+                return ("def", pm.methods[v.attr])
+            for st_ in pm.cls.body:
+                if isinstance(st_, ast.Assign) and any(isinstance(t, ast.Name) and t.id == v.attr for t in st_.targets):
+                    val = st_.value
+                    if isinstance(val, ast.Call) and isinstance(val.func, ast.Name) and val.func.id == "staticmethod" and val.args:
+                        val = val.args[0]
+                    if isinstance(val, ast.Lambda):
+                        return ("lambda", val)
+        return None
+
+    def is_noop(k) -> bool:
+        kind, node = k
+        if kind == "lambda":
+            return isinstance(node.body, ast.Constant)
+        return all(isinstance(s_, ast.Pass) or (isinstance(s_, ast.Expr) and isinstance(s_.value, ast.Constant)) or (isinstance(s_, ast.Return) and (s_.value is None or isinstance(s_.value, ast.Constant))) for s_ in node.body)
+
+    printers = []
     for x in walk_local(init):
         if isinstance(x, ast.Assign) and any(is_self_attr(t, "debug_print") for t in x.targets):
             v = x.value
-            ok = isinstance(v, ast.Lambda) and isinstance(v.body, ast.Constant) or isinstance(v, ast.Name)
-            ctx.ob("R18.2", f"parser:CxxParser.__init__|debug_print bound to `{short(v, 30)}`", ok, msg="debug_print is bound to something other than the local printer or a no-op lambda", node=x, mod=mod, nontrivial=False)
-    for f in ast.walk(init):
-        if isinstance(f, ast.FunctionDef) and f.name == "debug_print":
-            calls = [c for c in ast.walk(f) if isinstance(c, ast.Call)]
-            bad = [short(c) for c in calls if not (norm(c.func) in ("print", "inspect.currentframe") or norm(c.func).startswith("inspect."))]
-            stores = [s for s in ast.walk(f) if isinstance(s, (ast.Assign, ast.AugAssign)) and any(isinstance(t, ast.Attribute) for t in (s.targets if isinstance(s, ast.Assign) else [s.target]))]
-            ctx.ob("R18.2", "parser:CxxParser.__init__|verbose debug_print only prints", not bad and not stores, msg=f"the verbose printer does more than print: {bad}", node=f, mod=mod)
+            sides = [(v.body, True), (v.orelse, False)] if isinstance(v, ast.IfExp) and any(is_self_attr(y, "verbose") or (isinstance(y, ast.Attribute) and y.attr == "verbose") for y in ast.walk(v.test)) else [(v, None)]
+            for side, when in sides:
+                k = callable_of(side)
+                ok = k is not None and (is_noop(k) or when is not False)
+                if k is not None and not is_noop(k):
+                    printers.append(k[1])
+                ctx.ob("R18.2", f"parser:CxxParser.__init__|debug_print bound to `{short(side, 30)}`", ok, msg="debug_print is bound to something other than the verbose printer or a no-op (in non-verbose mode it must do nothing)", node=x, mod=mod, nontrivial=False)
+    for f in printers:
+        calls = [c for c in ast.walk(f) if isinstance(c, ast.Call)]
+        bad = [short(c) for c in calls if not (norm(c.func) in ("print", "inspect.currentframe") or norm(c.func).startswith("inspect."))]
+        stores = [s for s in ast.walk(f) if isinstance(s, (ast.Assign, ast.AugAssign)) and any(isinstance(t, ast.Attribute) for t in (s.targets if isinstance(s, ast.Assign) else [s.target]))]
+        ctx.ob("R18.2", "parser:CxxParser.__init__|verbose debug_print only prints", not bad and not stores, msg=f"the verbose printer does more than print: {bad}", node=f, mod=mod)
+    if not printers:
+        raise AnalysisError("anchor vanished: the verbose debug_print printer")
     # the verbose printer applies '%' to its format: then the data must never be part of the format string
     pct = False
-    for f in ast.walk(init):
-        if isinstance(f, ast.FunctionDef) and f.name == "debug_print" and f.args.args:
-            first = f.args.args[0].arg
+    for f in printers:
+        if isinstance(f, ast.FunctionDef) and f.args.args:
+            first = [a.arg for a in f.args.args if a.arg not in ("self", "cls")][0] if [a.arg for a in f.args.args if a.arg not in ("self", "cls")] else None
             for x in ast.walk(f):
-                if isinstance(x, ast.BinOp) and isinstance(x.op, ast.Mod) and first in {n.id for n in ast.walk(x.left) if isinstance(n, ast.Name)}:
+                if first and isinstance(x, ast.BinOp) and isinstance(x.op, ast.Mod) and first in {n.id for n in ast.walk(x.left) if isinstance(n, ast.Name)}:
                     pct = True
     ctx.extra["verbose_printer_applies_percent"] = pct
     may = pm.may_consume() | pm.may_emit() | pm.closure({"_setup_state", "_pop_state"})
@@ -323,6 +360,12 @@ def _expand_locals(cfg, at, e: ast.AST, depth: int = 0) -> str:
                 return n
             dn = cfg.nodes[ds[0]]
             st = dn.stmt
+            if dn.kind == "stmt" and isinstance(st, ast.Assign) and len(st.targets) == 1 and isinstance(st.targets[0], (ast.Tuple, ast.List)) and len(st.targets[0].elts) == 1 \
+                    and isinstance(st.targets[0].elts[0], ast.Name) and st.targets[0].elts[0].id == n.id \
+                    and not any(isinstance(c, ast.Call) and not (isinstance(c.func, ast.Name) and c.func.id in ("len", "isinstance", "getattr")) for c in ast.walk(st.value)):
+                # (x,) = seq : x is seq[0]
+                inner = ast.parse(_expand_locals(cfg, dn, _copy.deepcopy(st.value), depth + 1), mode="eval").body
+                return ast.Subscript(value=inner, slice=ast.Constant(value=0), ctx=ast.Load())
             if dn.kind == "stmt" and isinstance(st, ast.Assign) and len(st.targets) == 1 and isinstance(st.targets[0], ast.Name) \
                     and not any(isinstance(c, ast.Call) and not (isinstance(c.func, ast.Name) and c.func.id in ("len", "isinstance", "getattr")) for c in ast.walk(st.value)):
                 return ast.parse(_expand_locals(cfg, dn, _copy.deepcopy(st.value), depth + 1), mode="eval").body
